@@ -1,5 +1,80 @@
-import ChumskyModel.Model.Spec
+/-
+  C20 — parsing is total: every input yields a result, never a panic, hang or crash.
+
+  What a model can carry: (1) the "can't fail" `unwrap()`s on the pending error never fire and a failure is always
+  reported through the error list; (2) well-formed grammars never panic (the progress `debug_assert!`s never fire);
+  (3) non-recursive well-formed grammars terminate within an explicit fuel bound (fuel bounds recursion depth and loop
+  iterations). Native stack exhaustion, out-of-bounds and mid-character accesses are runtime facts: the check runs the
+  real crate under `catch_unwind` + watchdog on every stream and on malformed inputs (partial, see DESIGN.md).
+  Lemmas: Proofs/Lemmas/Total.lean (+ Master, SpecInv).
+-/
+import ChumskyModel.Proofs.Lemmas.Total
+import ChumskyModel.Proofs.Lemmas.Top
+set_option linter.unusedSimpArgs false
 namespace Chumsky
-theorem placeholder_C20 : True := trivial
-#print axioms placeholder_C20
+
+/-- **the "can't fail" unwraps never fire** (every grammar, every input, wrapped in `recover_with`, `map_err`,
+    `labelled` however deep): `parse`/`check` never panic at `take_alt().unwrap()`. -/
+theorem c20_unwraps_never_fire (n : Nat) (env : Env) (m : Mode) (g : G) (hm : env.memoOn = false) :
+    parseTop n env m g ≠ .panic pUnwrapRecovery ∧ parseTop n env m g ≠ .panic pUnwrapMapErr :=
+  parseTop_no_unwrap_panic n env m g hm
+
+/-- the invariant behind it: a failing run always leaves a pending error (for every error type, the zero-sized one
+    included) -/
+theorem c20_failure_leaves_pending_error (n : Nat) (env : Env) (m : Mode) (g : G) (st st' : St) (hm : env.memoOn = false)
+    (h : run n env m g st = .fail st') : st'.alt.isSome = true := by
+  have hr := run_refines n env m g st hm
+  rw [h] at hr
+  cases hp : peg n env g st.ss st.ctx <;> rw [hp] at hr <;> simp only [Refines] at hr
+  exact hr.alt
+
+/-- **failure is always reported through the error list** (every grammar, no hypothesis) -/
+theorem c20_failure_reported (n : Nat) (env : Env) (m : Mode) (g : G) (r : ParseResult) (f : St)
+    (h : parseTop n env m g = .result r f) (ho : r.output = none) : r.errs ≠ [] := by
+  unfold parseTop at h
+  cases hr : run n env m (.thenIgnore g .end_) St.init <;> simp [hr] at h
+  · obtain ⟨h1, _⟩ := h; subst h1; simp at ho
+  · obtain ⟨h1, _⟩ := h; subst h1; simp
+
+/-- **well-formed grammars never panic** (`G.wf`: no `todo`, non-empty tuple choice, well-typed iterator use, every
+    loop over an iterator that can yield an item without consuming is one that tolerates it — i.e. repetition items
+    consume input; recursion allowed, definitions well-formed) -/
+theorem c20_wf_no_panic {cd : Nat → Bool} (n : Nat) (env : Env) (m : Mode) (g : G) (hm : env.memoOn = false)
+    (hg : g.wf cd env.defs.length = true) (hd : DefsWf cd env) (w : Nat) : parseTop n env m g ≠ .panic w :=
+  parseTop_wf_no_panic n env m g hm hg hd w
+
+/-- the syntactic "consumes at least one token" analysis used by `wf` is sound for the reading -/
+theorem c20_consumes_sound {cd : Nat → Bool} (n : Nat) (env : Env) (hcd : CDefs cd env) (g : G) (s : SS) (ctx : Val)
+    {v s' em} (hc : g.consumes cd = true) (h : peg n env g s ctx = .ok v s' em) : s.pos < s'.pos :=
+  peg_consumes n env hcd g s ctx hc h
+
+/-- **termination, non-recursive well-formed grammars** (`G.wfTerm`: additionally the recovery `skip` parsers consume
+    and looped iterators advance): fuel `depth(g) + |input| + 2` always suffices — `parse`/`check` return a result. -/
+theorem c20_terminates (n : Nat) (env : Env) (m : Mode) (g : G) (hm : env.memoOn = false)
+    (hg : g.wfTerm = true) (hn : g.depth + env.toks.length + 2 ≤ n) :
+    ∃ r final, parseTop n env m g = .result r final :=
+  parseTop_terminates n env m g hm hg hn
+
+/-- why `wfTerm` asks the recovery `skip` parser to consume: `skip_until(empty(), ..)` never terminates (the real
+    loop in `recovery.rs` has no progress check either) — a hypothesis of the property ("repeated items consume
+    input") that has to be read as covering recovery skip parsers -/
+theorem c20_nonconsuming_skip_hangs (env : Env) (he : env.toks = []) (hm : env.memoOn = false) (n : Nat) (m : Mode) :
+    parseTop n env m hangSkipUntil = .oof :=
+  hangSkipUntil_parseTop env he hm n m
+
+/-- **finding (known_findings.json, D15).** `Then` of two iterable parsers asserts progress unless *both* sides
+    tolerate non-consumption, so `any().repeated().then(empty().to(x).or_not()).collect()` trips the debug assertion
+    on a one-token input although every repeated item consumes and the iteration is finite -/
+theorem c20_then_iter_assertion_witness :
+    peg 6 { toks := [5] } thenMix ⟨0, []⟩ .unit = .panic pNoProgress :=
+  thenMix_panics
+
+#print axioms c20_unwraps_never_fire
+#print axioms c20_failure_leaves_pending_error
+#print axioms c20_failure_reported
+#print axioms c20_wf_no_panic
+#print axioms c20_consumes_sound
+#print axioms c20_terminates
+#print axioms c20_nonconsuming_skip_hangs
+#print axioms c20_then_iter_assertion_witness
 end Chumsky
